@@ -1,3 +1,394 @@
 package main
 
-func cmdCheck(args []string) int { return 0 }
+// govc check <property> <tier>: regenerates every obligation of the property
+// from /repo's current working tree, the contract files and /verif/spec,
+// discharges them, writes /verif/evidence/<id>.json and prints VIOLATION /
+// KNOWN-FINDING lines.
+
+import (
+	"encoding/json"
+	"flag"
+	"fmt"
+	"os"
+	"path/filepath"
+	"sort"
+	"strconv"
+	"strings"
+	"sync"
+	"time"
+)
+
+type knownFinding struct {
+	Prop  string
+	Match string // substring matched against "<func> :: <obligation name> @ <file>"
+	Text  string
+}
+
+func loadKnownFindings(path string) []knownFinding {
+	data, err := os.ReadFile(path)
+	if err != nil {
+		return nil
+	}
+	var out []knownFinding
+	for _, line := range strings.Split(string(data), "\n") {
+		line = strings.TrimSpace(line)
+		if !strings.HasPrefix(line, "finding:") {
+			continue
+		}
+		rest := strings.TrimSpace(strings.TrimPrefix(line, "finding:"))
+		kf := knownFinding{Text: rest}
+		for _, f := range splitFields(rest) {
+			if strings.HasPrefix(f, "property=") {
+				kf.Prop = strings.TrimPrefix(f, "property=")
+			}
+			if strings.HasPrefix(f, "obligation=") {
+				kf.Match = strings.Trim(strings.TrimPrefix(f, "obligation="), `"`)
+			}
+		}
+		out = append(out, kf)
+	}
+	return out
+}
+
+// splitFields splits on spaces but keeps "quoted strings" together.
+func splitFields(s string) []string {
+	var out []string
+	var cur strings.Builder
+	inq := false
+	for _, r := range s {
+		switch {
+		case r == '"':
+			inq = !inq
+			cur.WriteRune(r)
+		case r == ' ' && !inq:
+			if cur.Len() > 0 {
+				out = append(out, cur.String())
+				cur.Reset()
+			}
+		default:
+			cur.WriteRune(r)
+		}
+	}
+	if cur.Len() > 0 {
+		out = append(out, cur.String())
+	}
+	return out
+}
+
+type checkUnit struct {
+	Key  string
+	Opts *VerifyOpts
+}
+
+type Evidence struct {
+	PropertyID  string                 `json:"property_id"`
+	Tier        string                 `json:"tier"`
+	Seed        int                    `json:"seed"`
+	Level       string                 `json:"level"`
+	Coverage    map[string]interface{} `json:"coverage"`
+	Assumptions []string               `json:"assumptions"`
+	WallS       float64                `json:"wall_s"`
+	Violations  int                    `json:"violations"`
+}
+
+func unitsFor(prog *Program, prop string) []checkUnit {
+	var units []checkUnit
+	for _, key := range sortedKeys(prog.contracts.byKey) {
+		ct := prog.contracts.byKey[key]
+		serves := false
+		for _, p := range ct.Props {
+			if p == prop {
+				serves = true
+			}
+		}
+		for _, cl := range append(append(append([]Clause(nil), ct.Requires...), ct.Ensures...), ct.Invariants...) {
+			for _, p := range cl.Props {
+				if p == prop {
+					serves = true
+				}
+			}
+		}
+		for _, p := range ct.Directives["nopanic"] {
+			for _, q := range strings.Fields(p) {
+				if q == prop {
+					serves = true
+				}
+			}
+		}
+		if !serves {
+			continue
+		}
+		opts := &VerifyOpts{Props: []string{prop}}
+		// implicit safety obligations (nil dereference, bounds, asserts, panics)
+		// are charged to the properties named by the nopanic directive
+		for _, p := range ct.Directives["nopanic"] {
+			opts.PanicProps = append(opts.PanicProps, strings.Fields(p)...)
+		}
+		for _, p := range ct.Directives["overflow"] {
+			opts.Overflow = append(opts.Overflow, strings.Fields(p)...)
+		}
+		if ct.Directives["ghostdb"] != nil {
+			opts.SQLProps = ct.Props
+			opts.TxProps = ct.Props
+		}
+		if mp := ct.Directives["maxpaths"]; mp != nil {
+			opts.MaxPaths, _ = strconv.Atoi(strings.TrimSpace(mp[0]))
+		}
+		units = append(units, checkUnit{Key: key, Opts: opts})
+	}
+	return units
+}
+
+func cmdCheck(args []string) int {
+	fs := flag.NewFlagSet("check", flag.ExitOnError)
+	repo := fs.String("repo", "/repo", "repository")
+	verif := fs.String("verif", "/verif", "verif directory")
+	_ = fs.Parse(args)
+	if fs.NArg() < 1 {
+		fmt.Fprintln(os.Stderr, "usage: govc check <property> [quick|thorough]")
+		return 2
+	}
+	prop := fs.Arg(0)
+	tier := "quick"
+	if fs.NArg() > 1 {
+		tier = fs.Arg(1)
+	}
+	if t := os.Getenv("VERIF_TIER"); t != "" && fs.NArg() < 2 {
+		tier = t
+	}
+	seed := 0
+	if s := os.Getenv("VERIF_SEED"); s != "" {
+		seed, _ = strconv.Atoi(s)
+	}
+	if seed < 0 {
+		seed = -seed
+	}
+	solverOrderSeed = seed % 3
+	timeout := 20
+	if tier == "thorough" {
+		timeout = 90
+	}
+	start := time.Now()
+	evPath := filepath.Join(*verif, "evidence", prop+".json")
+	_ = os.MkdirAll(filepath.Dir(evPath), 0o755)
+	_ = os.Remove(evPath)
+
+	fail := func(msg string) int {
+		// machinery failure: report as a violation of an engine obligation, never a silent pass
+		rp := filepath.Join(*verif, "replays", prop, "engine-error.txt")
+		_ = os.MkdirAll(filepath.Dir(rp), 0o755)
+		_ = os.WriteFile(rp, []byte("obligation: the verification conditions of "+prop+" can be generated from the current tree\nstatus: failed\n\n"+msg+"\n"), 0o644)
+		fmt.Printf("VIOLATION property=%s replay=%s no-failing-input-found\n", prop, rp)
+		ev := Evidence{PropertyID: prop, Tier: tier, Seed: seed, Level: "proof", WallS: time.Since(start).Seconds(), Violations: 1,
+			Coverage: map[string]interface{}{"obligations": 1, "discharged": 0, "checker_cmd": "govc check " + prop + " " + tier,
+				"trusted_base": []string{}, "explanation": "verification conditions could not be generated: " + msg}}
+		writeJSON(evPath, ev)
+		return 1
+	}
+
+	prog, err := loadAll(*repo, filepath.Join(*verif, "spec"), []string{"./..."})
+	if err != nil {
+		return fail(err.Error())
+	}
+	units := unitsFor(prog, prop)
+	extra := extraObligations(prog, prop, tier)
+	if len(units) == 0 && len(extra) == 0 {
+		return fail("no contract serves property " + prop)
+	}
+	outDir := filepath.Join(*verif, "out", prop)
+	_ = os.RemoveAll(outDir)
+	known := loadKnownFindings(filepath.Join(*verif, "known_findings.txt"))
+
+	type unitRes struct {
+		rep *FuncReport
+		x   *Exec
+		err error
+	}
+	results := make([]unitRes, len(units))
+	var wg sync.WaitGroup
+	sem := make(chan struct{}, 8)
+	for i, u := range units {
+		wg.Add(1)
+		sem <- struct{}{}
+		go func(i int, u checkUnit) {
+			defer wg.Done()
+			defer func() { <-sem }()
+			x, rep, err := prog.Explore(u.Key, u.Opts)
+			if err == nil {
+				x.Discharge(rep, outDir, timeout, 4)
+			}
+			results[i] = unitRes{rep, x, err}
+		}(i, u)
+	}
+	wg.Wait()
+	// stand-alone lemma queries
+	for _, q := range extra {
+		r := q.q.Solve(filepath.Join(outDir, "lemmas"), timeout)
+		q.res = &r
+	}
+
+	total, discharged := 0, 0
+	byBackend := map[string]int{}
+	solverTime := 0.0
+	var functions, notVerified, samples []string
+	assumptions := map[string]bool{}
+	violations := 0
+	knownHits := map[string]bool{}
+	replayDir := filepath.Join(*verif, "replays", prop)
+	_ = os.RemoveAll(replayDir)
+	report := func(fn, name, kind, pos, status, file, raw, model string, trace []string) {
+		id := fn + " :: " + name + " @ " + pos
+		for _, kf := range known {
+			if kf.Prop == prop && kf.Match != "" && strings.Contains(id, kf.Match) {
+				if !knownHits[kf.Text] {
+					knownHits[kf.Text] = true
+					fmt.Printf("KNOWN-FINDING: property=%s %s\n", prop, strings.TrimSpace(strings.Replace(kf.Text, "property="+prop, "", 1)))
+				}
+				return
+			}
+		}
+		violations++
+		_ = os.MkdirAll(replayDir, 0o755)
+		rp := filepath.Join(replayDir, fmt.Sprintf("%03d-%s.txt", violations, sanitizeFile(shortFunc(fn)+"."+kind)))
+		var b strings.Builder
+		fmt.Fprintf(&b, "property: %s\nfailed obligation: %s\nkind: %s\nfunction: %s\nat: %s\nsolver status: %s\nquery: %s\npath: %s\n", prop, name, kind, fn, pos, status, file, strings.Join(trace, " "))
+		suffix := " no-failing-input-found"
+		if status == "sat" {
+			fmt.Fprintf(&b, "\nThe solver found an assignment of the function's inputs / database rows under which the\nobligation is false (model below; symbols are access paths of the inputs, row.<table> are database rows).\n")
+			rr := tryReplay(prog, prop, fn, name, kind, model, *verif)
+			if rr.Reproduced {
+				suffix = ""
+				fmt.Fprintf(&b, "\nreplay on the real code: REPRODUCED\n%s\n", rr.Text)
+			} else {
+				fmt.Fprintf(&b, "\nreplay on the real code: %s\n", rr.Text)
+			}
+			fmt.Fprintf(&b, "\nmodel:\n%s\n", model)
+		} else {
+			fmt.Fprintf(&b, "\nThe obligation is discharged on the unchanged tree and is not discharged now; no model is available.\nsolver output:\n%s\n", raw)
+		}
+		_ = os.WriteFile(rp, []byte(b.String()), 0o644)
+		fmt.Printf("VIOLATION property=%s replay=%s%s\n", prop, rp, suffix)
+	}
+	for i, r := range results {
+		if r.err != nil {
+			violations++
+			rp := filepath.Join(replayDir, fmt.Sprintf("%03d-engine.txt", violations))
+			_ = os.MkdirAll(replayDir, 0o755)
+			_ = os.WriteFile(rp, []byte("obligation: contract of "+units[i].Key+" can be checked against the current source\nstatus: failed\n\n"+r.err.Error()+"\n"), 0o644)
+			fmt.Printf("VIOLATION property=%s replay=%s no-failing-input-found\n", prop, rp)
+			continue
+		}
+		rep := r.rep
+		functions = append(functions, rep.Key)
+		if len(rep.Unsupported) > 0 {
+			notVerified = append(notVerified, rep.Key+": "+strings.Join(rep.Unsupported, "; "))
+		}
+		for _, n := range rep.Intrinsics {
+			if d, ok := intrinsicDocs[n]; ok {
+				assumptions["external "+n+": "+d] = true
+			}
+		}
+		for _, n := range rep.Notes {
+			assumptions["engine note: "+n] = true
+		}
+		for _, n := range rep.Inlined {
+			assumptions["inlined helper (body verified in context, no separate contract): "+n] = true
+		}
+		for _, o := range rep.Obligations {
+			total++
+			if o.Result == nil {
+				continue
+			}
+			solverTime += o.Result.Seconds
+			if o.Result.Status == "unsat" {
+				discharged++
+				byBackend[o.Result.Solver]++
+				if len(samples) < 6 {
+					samples = append(samples, fmt.Sprintf("%s: %s [%s] @ %s -> unsat (%s, %.2fs)", shortFunc(o.Func), o.Name, o.Kind, o.Pos, o.Result.Solver, o.Result.Seconds))
+				}
+				continue
+			}
+			report(o.Func, o.Name, o.Kind, o.Pos, o.Result.Status, o.Result.File, o.Result.Raw, o.Result.Model, o.Trace)
+		}
+		if rep.Returns == 0 && len(rep.Unsupported) == 0 {
+			total++
+			report(rep.Key, "some path reaches a return (anti-vacuity)", "vacuity", "-", "unknown", "", "no path of the function reached a return under its preconditions", "", nil)
+		}
+	}
+	for _, q := range extra {
+		total++
+		solverTime += q.res.Seconds
+		if q.res.Status == "unsat" {
+			discharged++
+			byBackend[q.res.Solver]++
+			if len(samples) < 8 {
+				samples = append(samples, fmt.Sprintf("lemma %s -> unsat (%s, %.2fs)", q.name, q.res.Solver, q.res.Seconds))
+			}
+			continue
+		}
+		report("lemma", q.name, "lemma", q.where, q.res.Status, q.res.File, q.res.Raw, q.res.Model, nil)
+	}
+	sort.Strings(functions)
+	var asm []string
+	for a := range assumptions {
+		asm = append(asm, a)
+	}
+	sort.Strings(asm)
+	asm = append(asm, standingAssumptions(prop)...)
+	if len(samples) == 0 {
+		samples = append(samples, "(no obligation discharged)")
+	}
+	ev := Evidence{PropertyID: prop, Tier: tier, Seed: seed, Level: "proof", WallS: time.Since(start).Seconds(), Violations: violations,
+		Assumptions: asm,
+		Coverage: map[string]interface{}{
+			"obligations":              total,
+			"discharged":               discharged,
+			"checker_cmd":              "/verif/bin/govc check " + prop + " " + tier + "  (each obligation: one SMT-LIB file under /verif/out/" + prop + "/, raced on z3 4.8.12, z3 5.1.0, cvc5 1.0)",
+			"trusted_base":             trustedBase(prop),
+			"functions_under_contract": functions,
+			"functions_not_verified":   notVerified,
+			"by_backend":               byBackend,
+			"solver_time_s":            solverTime,
+			"known_findings_reported":  len(knownHits),
+			"samples":                  samples,
+			"contract_files":           prog.contracts.files,
+			"spec_files":               prog.spec.files,
+		}}
+	writeJSON(evPath, ev)
+	fmt.Printf("property %s: %d obligations, %d discharged, %d violations, %d known findings, %d functions (%d with unsupported paths), %.1fs\n",
+		prop, total, discharged, violations, len(knownHits), len(functions), len(notVerified), time.Since(start).Seconds())
+	if violations > 0 {
+		return 1
+	}
+	return 0
+}
+
+func writeJSON(path string, v interface{}) {
+	data, _ := json.MarshalIndent(v, "", " ")
+	_ = os.WriteFile(path, data, 0o644)
+}
+
+type lemmaQuery struct {
+	name  string
+	where string
+	q     *Query
+	res   *SolveResult
+}
+
+func trustedBase(prop string) []string {
+	return []string{
+		"govc itself (symbolic execution of go/ssa, SQL front end, contract evaluation) and the SMT solvers",
+		"go/ssa (x/tools v0.29.0) faithfully represents the compiled program; int is 64 bit",
+		"SQLite / Postgres execute each SQL transaction atomically, isolated and durably; the statement subset has the pointwise semantics of sqlsem.go",
+		"gocoro runs one coroutine at a time and only switches at its primitives; c.Time() is constant between primitives and non-decreasing (ticks are called with non-decreasing time)",
+		"induction over the sequence of committed transactions (the step obligations are proved here, the induction principle is not mechanised)",
+		"objects reachable from different parameters / access paths of a verified function do not alias",
+	}
+}
+
+func standingAssumptions(prop string) []string {
+	return []string{
+		"machine arithmetic: SMT Int with explicit 64-bit wrap-around on + and - (not mathematical integers); SQL integer + is mathematical",
+		"strings and byte slices are uninterpreted values with equality; json round trip for string maps and flat structs is assumed (ground instances)",
+	}
+}
